@@ -307,6 +307,9 @@ func replayInner(c *core.Ctx, doc json.RawMessage) (bool, string, error) {
 		return false, "", fmt.Errorf("replay schema no longer builds or is rejected: %s", describeBroken(out))
 	}
 	for _, res := range out.Results {
+		if os.Getenv("VERIF_DEBUG") != "" {
+			fmt.Printf("debug: unit %s/%s/%s cases=%d skipped=%q failed=%v classes=%v\n", res.Check, res.Schema, res.Unit, res.Cases, res.Skipped, res.Failed, res.Classes)
+		}
 		if res.Failed && strings.HasPrefix(res.Message, "infrastructure:") {
 			return false, "", fmt.Errorf("%s", res.Message)
 		}
